@@ -81,6 +81,9 @@ func famInbox(g *sgen, i int) J {
 			objs = append(objs, dave)
 		}
 		a["object"] = asList(objs)
+		if g.r.chance(30) {
+			a["actor"] = carol // who follows already
+		}
 		cfg := jmap(w["fedCallbacks"])
 		cfg["onFollow"] = float64(1 + g.r.intn(2))
 		var keep []interface{}
@@ -220,6 +223,8 @@ func famGet(g *sgen, i int) J {
 		// a quarter of the requests carry a query: the id asked about, locked and unlocked is the whole request IRI
 		if g.r.chance(25) {
 			path = "/notes/2?page=true&min_id=7"
+		} else if g.r.chance(10) {
+			path = "/notes/2/" // an id of its own
 		}
 		jmap(w["store"])[local(path)] = v
 		if g.r.chance(10) {
@@ -602,6 +607,7 @@ func famGraph(g *sgen, i int) J {
 	rem := jmap(w["remote"])
 	inboxFor := jmap(w["inboxFor"])
 	var actors, cols []string
+	crowd := false
 	na, nc := 3+g.r.intn(5), 1+g.r.intn(4)
 	for k := 0; k < na; k++ {
 		id := remote(fmt.Sprintf("/users/r%d", k))
@@ -615,10 +621,23 @@ func famGraph(g *sgen, i int) J {
 			delete(rem, id) // unreachable
 		default:
 			rem[id] = actorDoc(id, id+"/inbox")
+			if g.r.chance(12) {
+				// the inbox given as an embedded collection with an id, not as a bare IRI
+				jmap(rem[id])["inbox"] = J{"type": "OrderedCollection", "id": id + "/inbox"}
+			}
 		}
 		if g.r.chance(25) {
 			inboxFor[id] = id + "/stored-inbox"
 		}
+	}
+	if g.r.chance(3) {
+		// a long recipient list (more than 64 inboxes): still one hand-over to the transport
+		for k := na; k < 70; k++ {
+			id := remote(fmt.Sprintf("/users/r%d", k))
+			actors = append(actors, id)
+			inboxFor[id] = id + "/stored-inbox"
+		}
+		crowd = true
 	}
 	for k := 0; k < nc; k++ {
 		cols = append(cols, remote(fmt.Sprintf("/cols/c%d", k)))
@@ -673,6 +692,17 @@ func famGraph(g *sgen, i int) J {
 		v = J{"type": "Announce", "actor": alice, "object": remote("/notes/9")}
 	}
 	g.address(v, apool, 55)
+	if crowd {
+		var xs, ys []interface{}
+		for k, id := range actors {
+			if k%2 == 0 {
+				xs = append(xs, id)
+			} else {
+				ys = append(ys, id)
+			}
+		}
+		v["to"], v["cc"] = asList(xs), asList(ys)
+	}
 	if len(cols) >= 2 && g.r.chance(35) {
 		// a collection addressed directly and also reachable through another one (shared / nested audiences)
 		outer, inner := cols[0], cols[1]
